@@ -1,6 +1,6 @@
 """C15 — closed-form trainers: theorems (Props/C15.lean) + correspondence K-C15 between
 Model/Trainers.lean (driver drv_c15, exact `Rat` arithmetic) and the real Shark trainers
-(harness/c15.cpp, harness/c15b.cpp, harness/c15c.cpp) on integer / dyadic datasets with explicit batch partitions:
+(harness/c15.cpp, harness/c15b.cpp, harness/c15c.cpp, harness/c15d.cpp) on integer / dyadic datasets with explicit batch partitions:
 single ops on fresh objects and histories `op ; op ; ...` executed on the SAME trainer / model / output objects
 (every step must give what fresh objects give).
 
@@ -23,8 +23,9 @@ MANIFEST = dict(
         "depend on the batch partition (meanvar_batch_independent, linreg_batch_independent, normalizers_batch_independent, lda_batch_independent); unit-variance normaliser: output mean 0 / variance 1 on "
         "non-constant columns, constant columns mapped to 0 (unitvariance_output, sqrt specified); unit-interval normaliser: range [0,1] attained, "
         "constant columns to 1/2 for the repaired trainer, and a witness theorem that the pinned source maps a constant column v to 1/2 - v (F-C15-1); "
-        "whitening: covariance t*I given the factor specification C*Cov*C^T = I (whitening_output, linear_image_covariance), which ZCA's Q*diag(1/sqrt D)*Q^T "
-        "meets given the eigen-solver specification (zca_output_partial: regular covariance only, witness zca_partial_witness); PCA: orthonormal directions "
+        "whitening: covariance t*I given the factor specification C*Cov*C^T = I (whitening_output; whitening_output_general: t*C*Cov*C^T for any factor; linear_image_covariance); ZCA for EVERY covariance, "
+        "singular included (zca_output, replaces zca_output_partial): with the eigen-solver specification and the scales the trainer computes (zca_scale_spec: 1/sqrt(D_k), 0 on cleared directions) the "
+        "output covariance is t times the orthogonal projector Q*diag(e)*Q^T onto the kept eigen-directions (symmetric, idempotent), t*I in the regular case (zca_output_regular); PCA: orthonormal directions "
         "=> decoder(encoder(x)) is idempotent, its residual is orthogonal to all directions and it is the closest point of mean+span (pca_projection; "
         "pca_projection_general for systems whose columns are unit or zero vectors, as the repaired small-sample branch returns); "
         "small-sample branch: eigenvectors of XX^T/l lift to eigenvectors of the covariance with the same eigenvalue and squared norm l*lambda "
@@ -32,7 +33,15 @@ MANIFEST = dict(
         "(pca_whitened_covariance); "
         "LDA: the matrix assembled from second moments is the pooled within-class covariance (lda_pooled_covariance, wlda_pooled_covariance for positive weights); with z_c*C = m_c the installed linear discriminant ranks classes exactly like the Gaussian log-posterior with shared covariance C "
         "(lda_bayes_rule_partial: excludes singular covariances whose range misses the class means, witness lda_partial_witness), statistics batch independent (lda_batch_independent); weighted LDA statistics are invariant under scaling all weights "
-        "(weights_scale_invariant); FisherLDA's global mean sum_c n_c m_c / n is the mean of the inputs (fisher_mean; the pinned source divides twice, F-C15-6). "
+        "(weights_scale_invariant); LDA::train assembled from these statistics, the solver and the bias (ldaTrainDiscriminant) ranks classes like the Gaussian log-posterior of its estimates given only the solver specification "
+        "'returns a solution whenever one exists' (lda_train_bayes_rule_partial); FisherLDA's global mean sum_c n_c m_c / n is the mean of the inputs (fisher_mean); the matrix meanAndScatter hands to the eigen-solver "
+        "satisfies Sw*M = Sb by C02's solve_spd_correct (fisher_scatter_spec, no solver specification assumed), such an M is not symmetric (fisher_scatter_not_symmetric_witness, F-C15-7) and the Cholesky-symmetrised "
+        "eigenproblem of the proposed repair yields directions with Sb*w = lambda*Sw*w (fisher_symmetrised_direction). "
+        "Kernel trainers (Model/TrainersKernel.lean, any kernel function as a parameter): NormalizeKernelUnitVariance -- for a symmetric kernel the batch-pair loop computes the feature-space variance and the installed factor makes it "
+        "exactly 1 unless it is 0 (nkuv_unit_variance, F-C15-10), batch independent (nkuv_batch_independent), symmetry is necessary (nkuv_needs_symmetry); KernelMeanClassifier -- decision values differ by -1/2 the difference of the squared "
+        "feature-space distances to the weighted class means, binary value = decision_1 - decision_0 (kmean_nearest_mean), invariant under scaling all weights (kmean_weights_scale_invariant) and under re-batching (kmean_batch_independent); "
+        "RegularizationNetworkTrainer -- coefficients solving (K + noise*I)*alpha = l - mean(l) make every partial derivative of 1/2 sum (f(x_i)-l_i)^2 + noise/2 alpha^T K alpha vanish (regnet_stationary), and in the Cholesky branch "
+        "this holds END TO END through the C02 model of potrf + triangular solves (regnet_train_cholesky_stationary uses C02.solve_spd_correct; hypotheses: potrf returns 0, sqrt at the pivots), batch independent (regnet_batch_independent). "
         "Objects used more than once: the model follows remora's matrix::resize (the linear storage keeps its old numbers, Mat.resize) and proves that "
         "meanvar into an output matrix of any previous shape and content yields the covariance (meanvar_output_reuse), that PCA::setData leaves the same "
         "decomposition on every object whatever it decomposed before, in either branch (pca_setData_history_independent, pca_reused_object_models, "
@@ -40,7 +49,8 @@ MANIFEST = dict(
         "The model (Model/Trainers.lean) is tied to the real trainers on every run by a differential correspondence on integer datasets with explicit "
         "batch partitions, single ops on fresh objects AND histories `op ; op ; ...` of 2-4 ops executed on the SAME trainer, model and output objects "
         "(PCA object through setData / train / the data constructor with whitening, algorithm and number of components changed in between; "
-        "LinearRegression, LDA (unweighted and weighted mixed) and FisherLDA re-configured through their setters or setParameterVector; one Normalizer "
+        "LinearRegression, LDA (unweighted and weighted mixed) and FisherLDA re-configured through their setters or setParameterVector; RegularizationNetworkTrainer (kernel and regularisation through setC / setParameterVector and -- "
+        "when they compile, F-C15-9 -- setNoiseVariance / setPrecision), KernelMeanClassifier, NormalizeKernelUnitVariance and their KernelExpansion / KernelClassifier / ScaledKernel objects re-used across both kernels; one Normalizer "
         "model re-trained with and without offset; one LinearModel shared by regression, whitening and ZCA; meanvar output arguments that arrive "
         "filled; new data of another shape incl. more features than points after fewer and vice versa, the same data under another configuration, "
         "identical repetition) -- every step of a history is judged against the model of that step alone, i.e. must equal what fresh objects give, and "
@@ -50,21 +60,28 @@ MANIFEST = dict(
         "(A*beta = X^T L, s*s = var, W*Cov*W^T = t*I, Cov*v = lambda*v, V^T V = I, z*Cov = m) in exact rational arithmetic on the returned doubles "
         "(relative 1e-9); plus an independent plain-loop property oracle in the harness (gradient, output mean/variance/range/covariance, "
         "orthonormality, projection, batch-partition invariance of every trainer (whitening: of W^T W, the factor itself is not unique; regular covariances only), "
-        "weight-scale invariance, variance()/covariance() wrappers)."),
-  note=TRUST + "NOT proved: the specifications of sqrt/log/eigen-solver/pivoted Cholesky (hypotheses, checked at "
-       "run time on the returned values), that ZCA's Q*D^(-1/2)*Q^T satisfies the factor specification, lda_bayes_rule (LDA is covered by the "
-       "correspondence only: class means, pooled covariance, solve specification, bias vs log prior), FisherLDA (not modelled), floating-point rounding. "
+        "weight-scale invariance (LDA, KernelMeanClassifier: x2, x3, x1/8), variance()/covariance() wrappers; kernel trainers with LinearKernel and PolynomialKernel(2,1), both exact on the generated data: regnet residual and gradient, "
+        "kmean nearest-mean identity on every training point, nkuv unit variance through the real ScaledKernel); FisherLDA's scatter matrix is compared with the model (Sw*M = Sb in exact arithmetic on the returned doubles). "
+        "Degenerate data on every run (boundary block per op: n = 1, two equal points, all points equal, constant column, duplicated rows, d > n, single class, one example per class, zero-weight example / class / all weights zero), "
+        "distribution measured on the generated text (evidence: degenerate_data, boundary_cases)."),
+  note=TRUST + "NOT proved: the specifications of sqrt/log/the symmetric eigen-solver and of the PIVOTED Cholesky solver (symm_semi_pos_def: linear regression, LDA, whitening, the ill-conditioned branch of "
+       "RegularizationNetworkTrainer) -- hypotheses (SolverSpec, RightSolverSpec, factor specification), checked at run time on the returned values; C02 models pstrf and the semi-definite solve but has no theorem about them, so only the "
+       "symm_pos_def call sites (RegularizationNetworkTrainer's Cholesky branch, FisherLDA::meanAndScatter) compose with C02 theorems. Two theorems stay _partial: lda_bayes_rule_partial / lda_train_bayes_rule_partial "
+       "(hypothesis: Z*C = means solvable; fails only for a singular pooled covariance whose range misses a class mean -- lda_partial_witness; the real code was run there (corpus f4, boundary block 'all-points-equal'/'constant-column' with reg = 0): "
+       "it returns the finite pseudo-inverse solution, no defect, but the Gaussian model is degenerate, so no Bayes statement exists to prove). Optimality (not just stationarity) of the regularisation network needs K positive semi-definite "
+       "and is not stated. FisherLDA's returned directions are not proved optimal (open finding F-C15-7: they are not); floating-point rounding. LassoRegression (iterative coordinate descent, no closed form) and the SVM / SGD trainers are outside this property. "
        "PCA whitening and toleranced comparisons are behind the eigen-solver (toleranced mode). The history-independence theorems are about the object "
        "model (PcaObject, meanvarInto); for the other trainers (no state besides their configuration) and for the models (setStructure overwrites) "
        "independence of earlier use is checked by the correspondence on generated histories only (generator-bounded: 2-4 steps). Large-magnitude data "
-       "(2^6 and more) together with tiny regularisation is not generated: the rounding error of the ill-conditioned solves exceeds the comparison tolerances. Findings F-C15-1..8 (findings_proposed/C15.md): the check "
-       "reports VIOLATION on the unpatched tree and is green on a tree with findings_proposed/C15.patch applied.",
+       "(2^6 and more) together with tiny regularisation is not generated: the rounding error of the ill-conditioned solves exceeds the comparison tolerances. Findings F-C15-1..10 (findings_proposed/C15.md): 1-6 and 8 are fixed in /repo; open: F-C15-7 (FisherLDA, patch C15-F-C15-7.patch), "
+       "F-C15-9 (RegularizationNetworkTrainer::setNoiseVariance/setPrecision cannot be instantiated, compile probe, patch C15-F-C15-9.patch), F-C15-10 (NormalizeKernelUnitVariance installs the factor 1/0 on data without feature-space variance, "
+       "patch C15-F-C15-10.patch); the check is green with no known finding hit on a tree with the three patches applied.",
   technique="Lean 4 proofs over exact rational arithmetic (all sizes, dimensions, batch partitions) + differential correspondence with the C++ trainers (ASan/UBSan, FE_INEXACT-gated exact comparison)",
   design="§6 C15")
 
 FINISH = dict(level="proof",
               rule="one op = one trainer call on an integer dataset with an explicit batch partition (SplitMix64 stream): "
-                   "meanvar, unitvar, unitint, linreg, whiten, zca, pca/pcat/pcac (setData, train, constructor), lda, wlda, fisher, optionally `@s` "
+                   "meanvar, unitvar, unitint, linreg, whiten, zca, pca/pcat/pcac (setData, train, constructor), lda, wlda, fisher, regnet, kmean, nkuv, optionally `@s` "
                    "(dyadic fractions); a line is one op on fresh objects or a history `op ; op ; ...` on the same objects; a case is non-trivial if it "
                    "is a history or has >1 batch, a constant column, rank deficiency or d>n; distinct = distinct line text")
 
@@ -610,6 +627,9 @@ def classify(r):
         return ("F-C15-10:nkuv-zero-feature-variance",
                 f"NormalizeKernelUnitVariance on data without variance in feature space (all points coincide) installs the factor 1/0 = inf "
                 f"(SHARK_ASSERT(tm > 0) is compiled out in release builds): `{r.op}` -> {r.impl[:80]}", True)
+    if op == "fisher" and "fisher-scatter" in r.model:
+        return ("mismatch:fisher:scatter", f"the matrix FisherLDA::meanAndScatter hands to the eigen-solver is not the solution of Sw*M = Sb for the "
+                f"model's scatter matrices: `{r.op}` -> {r.model[:200]}; oracle tags {r.oracle}", bool(r.oracle))
     if op == "lda" and "lda-n-equals-classes" in r.model:
         return ("F-C15-4:lda-n-equals-classes",
                 f"LDA divides the scatter matrix by n - classes = 0: `{r.op}` -> {r.impl[:80]}", True)
@@ -742,12 +762,13 @@ def degenerate(step):
 
 
 def run(ctx):
-    ctx.trusted += ["correspondence harnesses harness/c15.cpp, harness/c15b.cpp, harness/c15c.cpp + generator checks/c15.py",
-                    "hand-written model Model/Trainers.lean (the trainers are modelled, not translated)",
+    ctx.trusted += ["correspondence harnesses harness/c15.cpp, harness/c15b.cpp, harness/c15c.cpp, harness/c15d.cpp + generator checks/c15.py",
+                    "hand-written models Model/Trainers.lean, Model/TrainersKernel.lean (the trainers are modelled, not translated)",
                     "FE_INEXACT flag semantics (x86-64 SSE2, -ffp-contract=off, OPENBLAS_NUM_THREADS=1) for the exact comparisons",
                     "ASan/UBSan runtime for the real code's memory safety (not a theorem)"]
     ctx.assumptions += ["exact rational arithmetic: the theorems do not cover floating-point rounding",
-                        "sqrt, log, the symmetric eigen-solver and the positive semi-definite solver are parameters of the model; "
+                        "sqrt, log, the symmetric eigen-solver and the positive SEMI-definite (pivoted Cholesky) solver are parameters of the model -- the positive definite "
+                        "(Cholesky) solver is not: those call sites use the C02 model and theorem solve_spd_correct; "
                         "their specifications are hypotheses of the theorems and are checked on the values the real code returns"]
     ctx.prove(["SharkVerif.Props.C15"])
     if not ctx.quick:
